@@ -15,8 +15,9 @@
 (* should_skip_terminal, formatter_impl.rs comma_if_broken, comment        *)
 (* re-wrapping, sort_items_sections, merge_use_items).  A case is accepted *)
 (* iff the state (end, end) is reachable (`done`) and the recorded run was *)
-(* idempotent and its output parsed (`Accepted`).  Any other dropped, added, changed or *)
-(* reordered element has no action, so no accepting path exists.           *)
+(* idempotent and its output parsed (`Accepted`).  Any other dropped,      *)
+(* added, changed or reordered element has no action, so no accepting path *)
+(* exists.                                                                 *)
 (*                                                                         *)
 (* Deliberate deviations from the property's literal wording ("only        *)
 (* whitespace, optional trailing commas, order/grouping of use/mod"), all  *)
@@ -33,7 +34,7 @@ CONSTANTS Cases,  \* sequence of case records (see Appendix A.6 / fmtstream.rs)
 VARIABLES c,      \* index of the case being walked
           i,      \* cursor into the input stream  (next element to account for)
           j,      \* cursor into the output stream
-          done    \* accepted
+          done    \* both streams fully accounted for
 
 vars == <<c, i, j, done>>
 
@@ -150,26 +151,31 @@ NormLeaf(l) == IF Len(l.path) >= 2 /\ l.path[Len(l.path)] = "self"
 LeafKeys(S, it) == [n \in DOMAIN it.leaves |->
                        <<CodeOnly(Sel(S, it.a, it.d)), NormLeaf(it.leaves[n]), it.dollar>>]
 
-UseItemSig(S, it) == <<Bag(LeafKeys(S, it)), Words(Sel(S, it.a, it.b))>>
-ModItemSig(S, it) == Essential(Sel(S, it.a, it.b))
+\* hw: comment words found in front of the section that belong to its first item (see HeaderRun)
+UseItemSig(S, it, hw) == <<Bag(LeafKeys(S, it)), hw \o Words(Sel(S, it.a, it.b))>>
+ModItemSig(S, it, hw) == hw \o Essential(Sel(S, it.a, it.b))
 
-ItemSigs(S, sec) == [n \in DOMAIN sec.items |->
-                        IF sec.sk = "use" THEN UseItemSig(S, sec.items[n]) ELSE ModItemSig(S, sec.items[n])]
+ItemSigs(S, sec, hw) ==
+    [n \in DOMAIN sec.items |->
+        LET h == IF n = 1 THEN hw ELSE <<>> IN
+        IF sec.sk = "use" THEN UseItemSig(S, sec.items[n], h) ELSE ModItemSig(S, sec.items[n], h)]
 
 \* sort_module_level_items: the items of a section are permuted (and the elements of a `use`
 \* list are permuted inside an item); nothing is regrouped
-Permuted(s, t) == Bag(ItemSigs(In, s)) = Bag(ItemSigs(Out, t))
+Permuted(s, t, hw) == Bag(ItemSigs(In, s, <<>>)) = Bag(ItemSigs(Out, t, hw))
 
 AllLeaves(S, sec) == Flatten([n \in DOMAIN sec.items |-> LeafKeys(S, sec.items[n])])
-ItemWords(S, sec) == SelectSeq([n \in DOMAIN sec.items |-> Words(Sel(S, sec.items[n].a, sec.items[n].b))],
-                               LAMBDA w : w # <<>>)
+ItemWords(S, sec, hw) ==
+    SelectSeq([n \in DOMAIN sec.items |->
+                  (IF n = 1 THEN hw ELSE <<>>) \o Words(Sel(S, sec.items[n].a, sec.items[n].b))],
+              LAMBDA w : w # <<>>)
 
 \* merge_use_items: the same leaves (as a set unless allow_duplicate_uses), regrouped at will;
 \* items carrying comments are not merged, so every item's comment words survive as a unit
-Merged(s, t) ==
+Merged(s, t, hw) ==
     /\ IF Cfg.dup THEN Bag(AllLeaves(In, s)) = Bag(AllLeaves(Out, t))
                   ELSE Range(AllLeaves(In, s)) = Range(AllLeaves(Out, t))
-    /\ Bag(ItemWords(In, s)) = Bag(ItemWords(Out, t))
+    /\ Bag(ItemWords(In, s, <<>>)) = Bag(ItemWords(Out, t, hw))
 
 \* cheap pre-filter: the first element of an item
 MayStartItem(e) == e.k \in {"cs", "TerminalUse", "TerminalModule", "TerminalHash", "TerminalPub"}
@@ -207,25 +213,40 @@ RewrapJoin  == /\ HasIn /\ HasOut /\ j > 1
                /\ StepI
 RewrapComment == RewrapSplit \/ RewrapJoin
 
-\* a section of the input starts at i and a section of the same kind of the output starts at j
-SectionPairs == IF HasIn /\ HasOut /\ MayStartItem(In[i])
-                THEN {st \in (DOMAIN ISec) \X (DOMAIN OSec) :
-                         /\ ISec[st[1]].a = i /\ OSec[st[2]].a = j
-                         /\ ISec[st[1]].sk = OSec[st[2]].sk}
-                ELSE {}
+\* The parser attributes the comments at the very start of a file to a header item (an empty
+\* terminal) and not to the item they precede.  When sorting moves a commented item to the start
+\* of the file, its comments are therefore found in front of the output's section: a run of
+\* comment elements from j up to the empty terminal at k.
+HeaderRun == {k \in j..Len(Out) : Out[k].k = "TerminalEmpty" /\ \A m \in j..(k - 1) : IsComment(Out[m])}
+
+\* <<si, ti, hw>>: a section of the input starts at i and a section of the same kind of the output
+\* starts at j (hw empty) or right after a header run starting at j (hw = the words of that run)
+SectionPairs ==
+    IF HasIn /\ HasOut /\ MayStartItem(In[i])
+    THEN {<<st[1], st[2], <<>>>> : st \in {st \in (DOMAIN ISec) \X (DOMAIN OSec) :
+                                              /\ ISec[st[1]].a = i /\ OSec[st[2]].a = j
+                                              /\ ISec[st[1]].sk = OSec[st[2]].sk}}
+         \cup
+         (IF IsComment(Out[j])
+          THEN {<<st[1], st[2], Words(Sel(Out, j, st[3] - 1))>> :
+                   st \in {st \in (DOMAIN ISec) \X (DOMAIN OSec) \X HeaderRun :
+                             /\ ISec[st[1]].a = i /\ OSec[st[2]].a = st[3] + 1
+                             /\ ISec[st[1]].sk = OSec[st[2]].sk}}
+          ELSE {})
+    ELSE {}
 
 Jump(st) == /\ i' = ISec[st[1]].b + 1 /\ j' = OSec[st[2]].b + 1
             /\ UNCHANGED <<c, done>>
 
 PermuteWithinSection ==
     /\ Cfg.sort
-    /\ \E st \in SectionPairs : Permuted(ISec[st[1]], OSec[st[2]]) /\ Jump(st)
+    /\ \E st \in SectionPairs : Permuted(ISec[st[1]], OSec[st[2]], st[3]) /\ Jump(st)
 
 MergeUse ==
     /\ Cfg.merge
     /\ \E st \in SectionPairs :
           /\ ISec[st[1]].sk = "use"
-          /\ Merged(ISec[st[1]], OSec[st[2]])
+          /\ Merged(ISec[st[1]], OSec[st[2]], st[3])
           /\ Jump(st)
 
 (* Both streams are exhausted: the output stream is reachable from the input stream. *)
